@@ -71,6 +71,10 @@ func routingScenario(s *Sim, params map[string]string) {
 			}
 		}
 	}
+	if t.Intn("cfg", 3) == 0 {
+		// coordinator lookups that fail (coordinator loading / not available)
+		cl.F = FaultCfg{ErrorCode: Pick(t, "cfg", 50, 200), APIs: map[int16]bool{10: true}}
+	}
 	ngrp := t.Range("cfg", 1, 4)
 	for gi := 0; gi < ngrp; gi++ {
 		cl.group(fmt.Sprintf("rg%d", gi))
@@ -114,11 +118,22 @@ func routingScenario(s *Sim, params map[string]string) {
 	}
 
 	created := 0
+	var quietUntil time.Duration
 	nact := t.Range("cfg", 1, 4)
 	for a := 0; a < nact; a++ {
 		a := a
 		s.Go(fmt.Sprintf("r%d", a), func() {
 			for s.Now() < endAt && !s.Failed() {
+				if d := quietUntil - s.Now(); d > 0 {
+					s.Sleep(d) // a period in which nobody uses the transport
+					continue
+				}
+				if t.Intn("work", 25) == 0 {
+					// everybody goes quiet for a few metadata TTLs
+					quietUntil = s.Now() + time.Duration(t.Range("work", 2, 6))*ttl
+					s.Count("quiet-period")
+					continue
+				}
 				ctx, cancel := context.WithTimeout(context.Background(), 3*time.Second)
 				tn := topics[t.Intn("work", len(topics))]
 				np := len(cl.Topics[tn].Parts)
@@ -228,6 +243,7 @@ func routingOracle(s *Sim, cl *Cluster, ttl, maxLat time.Duration, moves []time.
 		at   time.Duration
 		node int32
 	}{}
+	coordErrAt := map[string][]time.Duration{} // FindCoordinator answers carrying an error
 	for _, r := range cl.Journal {
 		if r.API == nil || !r.RespFull || r.Resp == nil {
 			continue
@@ -251,6 +267,9 @@ func routingOracle(s *Sim, cl *Cluster, ttl, maxLat time.Duration, moves []time.
 			}
 			snaps = append(snaps, sn)
 		case 10:
+			if r.Resp.I16("error_code") != 0 {
+				coordErrAt[r.Body.Str("key")] = append(coordErrAt[r.Body.Str("key")], r.RespFullAt)
+			}
 			if r.Resp.I16("error_code") == 0 {
 				k := r.Body.Str("key")
 				coord[k] = append(coord[k], struct {
@@ -302,6 +321,7 @@ func routingOracle(s *Sim, cl *Cluster, ttl, maxLat time.Duration, moves []time.
 		}
 		// R1/R3: destination
 		var want func(sn snapshot) (int32, bool)
+		var leaderOf func() *Partition
 		what := ""
 		switch k {
 		case 0:
@@ -312,6 +332,7 @@ func routingOracle(s *Sim, cl *Cluster, ttl, maxLat time.Duration, moves []time.
 			tn, pi := td[0].Str("name"), td[0].Arr("partition_data")[0].I32("index")
 			what = fmt.Sprintf("leader of %s[%d]", tn, pi)
 			want = func(sn snapshot) (int32, bool) { l, ok := sn.leaders[tn][pi]; return l, ok }
+			leaderOf = func() *Partition { return cl.Part(tn, pi) }
 		case 1:
 			ts := r.Body.Arr("topics")
 			if len(ts) != 1 || len(ts[0].Arr("partitions")) != 1 {
@@ -320,6 +341,7 @@ func routingOracle(s *Sim, cl *Cluster, ttl, maxLat time.Duration, moves []time.
 			tn, pi := ts[0].Str("topic"), ts[0].Arr("partitions")[0].I32("partition")
 			what = fmt.Sprintf("leader of %s[%d]", tn, pi)
 			want = func(sn snapshot) (int32, bool) { l, ok := sn.leaders[tn][pi]; return l, ok }
+			leaderOf = func() *Partition { return cl.Part(tn, pi) }
 		case 2:
 			ts := r.Body.Arr("topics")
 			if len(ts) != 1 || len(ts[0].Arr("partitions")) != 1 {
@@ -329,6 +351,7 @@ func routingOracle(s *Sim, cl *Cluster, ttl, maxLat time.Duration, moves []time.
 			tn, pi := ts[0].Str("name"), ts[0].Arr("partitions")[0].I32("partition_index")
 			what = fmt.Sprintf("leader of %s[%d]", tn, pi)
 			want = func(sn snapshot) (int32, bool) { l, ok := sn.leaders[tn][pi]; return l, ok }
+			leaderOf = func() *Partition { return cl.Part(tn, pi) }
 		case 19, 20:
 			what = "controller"
 			want = func(sn snapshot) (int32, bool) { return sn.controller, sn.controller >= 0 }
@@ -345,12 +368,23 @@ func routingOracle(s *Sim, cl *Cluster, ttl, maxLat time.Duration, moves []time.
 					}
 				}
 			}
+			if !any && len(coordErrAt[gid]) > 0 {
+				s.Fail("C12", "R1-sent-without-coordinator", "%s request for group %s was sent to broker %d although every FindCoordinator answer delivered before it (at %v) carried an error", r.API.Name, gid, b.ID, coordErrAt[gid])
+			}
 			if any && !ok {
 				s.Fail("C12", "R1-wrong-broker", "%s request for group %s arrived at broker %d at %v, which no FindCoordinator answer delivered before had named (answers: %v)", r.API.Name, gid, b.ID, r.At, coord[gid])
 			}
 			continue
 		default:
 			continue
+		}
+		// R3: once a leader has been in place for longer than the metadata TTL
+		// plus a round trip (and the cluster answered metadata without faults),
+		// requests for its partition must reach it
+		if leaderOf != nil {
+			if p := leaderOf(); p != nil && p.Leader != b.ID && r.At-p.LeaderSince > ttl+12*maxLat+100*time.Millisecond && cl.F.ErrorCode == 0 {
+				s.Fail("C12", "R3-stale-leader", "%s request #%d arrived at broker %d at %v, but broker %d has been %s since %v: more than MetadataTTL (%v) plus a round trip ago", r.API.Name, r.Idx, b.ID, r.At, p.Leader, what, p.LeaderSince, ttl)
+			}
 		}
 		w := window(r.At)
 		if len(w) == 0 {
